@@ -89,6 +89,8 @@ class _Run:
         self.remote = 0
         self.accepted = 0
         self._ix, self._iids = [], []
+        self.srv2 = None         # focus shape 'two daemons': a second daemon in which a pool object is registered as well
+        self.in_b = set()        # xkeys that were ever registered in that second daemon (their marks may name it)
 
     # ------------------------------------------------------------------ helpers
     def tier(self, xs, ids):
@@ -632,6 +634,14 @@ class _Run:
         if out[0] != "proxy":
             self.viol("returned-object-not-proxy", st, "%s is registered under %r (%s) and must arrive as a proxy [%s]; the client got %s"
                       % (self.name(xk), ids, st, ser, self.describe(out)))
+        if xk in self.in_b:
+            # registered in a second daemon as well: the marks on an object name one daemon only, so the proxy may lead to the
+            # other daemon (possibly closed by now). What this daemon owes is a proxy for one of the object's ids, not a copy.
+            rp._pyroRelease()
+            if out[1] not in ids:
+                self.viol("returned-proxy-wrong-id", st, "%s is registered under %r, the proxy that arrived is for %r" % (self.name(xk), ids, out[1]))
+            ctx.probe("return_proxy_two_daemons")
+            return
         if out[1] not in ids or out[2] != self.loc:
             rp._pyroRelease()
             self.viol("returned-proxy-wrong-id", st, "%s is registered under %r at %s, the proxy that arrived is for %r@%s"
@@ -647,6 +657,34 @@ class _Run:
         ctx.probe("return_proxy")
         ctx.probe(ser)
         self.shape_probe(xk)
+
+    def do_reg2(self, op):
+        """focus shape 'two daemons': the pool object is registered, under the id it has here, in a second daemon too"""
+        ctx = self.ctx
+        xk = ("o", self.serial[op["k"]])
+        ids = self.ids_of(xk)
+        if len(ids) != 1:
+            return
+        if self.srv2 is None:
+            self.srv2 = Server(ctx, self.plan["servertype"])
+        try:
+            self.srv2.daemon.register(self.pool[op["k"]], ids[0])
+        except Exception as x:  # noqa
+            raise S.HarnessError("registration in the second daemon failed: %r" % (x,))
+        self.in_b.add(xk)
+        self.sched.ev("reg2", self.i, op["k"], ids[0])
+        ctx.probe("registered_in_two_daemons")
+
+    def do_close2(self, op):
+        if self.srv2 is None:
+            return
+        d = self.srv2.daemon
+        d.shutdown()
+        self.sched.block(lambda: not self.srv2.loop_alive(), 30.0, "second daemon's loop")
+        d.close()
+        self.settle()
+        self.sched.ev("close2", self.i)
+        self.ctx.probe("second_daemon_closed")
 
     def describe(self, out):
         if out[0] == "proxy":
@@ -689,6 +727,10 @@ class _Run:
         w = weakref.ref(self.pool[k])
         del self.pool[k]
         gc.collect()
+        if w() is None:
+            # the successor is created at once: the allocator tends to hand out the block that was just freed, so the new
+            # object often lives at the dead one's address (whatever remembers objects by id() now meets a stranger)
+            self.fresh(k)
         if w() is not None:
             if not self.held_by_daemon(w):
                 raise S.HarnessError("gc point: object#%d did not die and the daemon does not hold it (%d referrers)"
@@ -707,7 +749,6 @@ class _Run:
         self.sched.ev("gc", self.i, k, len(ids))
         if ids:
             self.ctx.probe("weak_collected")
-        self.fresh(k)
         if audit:
             self.audit("gc:" + ("weak" if ids else "unregistered"))
 
@@ -896,7 +937,8 @@ class _Run:
             self.fresh(slot)
         self.daemon.register(O.Dispenser(self.pool, self.made, self.hooks), DISP_ID)
         steps = {"par": self.do_par, "tmake": self.do_tmake, "reg": self.do_reg, "unreg": self.do_unreg, "uri": self.do_uri, "proxy": self.do_proxy, "call": self.do_call,
-                 "ret": self.do_ret, "gc": self.do_gc, "list": lambda op: self.do_list(op.get("ser", "serpent"))}
+                 "ret": self.do_ret, "gc": self.do_gc, "list": lambda op: self.do_list(op.get("ser", "serpent")),
+                 "reg2": self.do_reg2, "close2": self.do_close2}
         for i, op in enumerate(plan["ops"]):
             self.i, self.op = i, op
             steps[op["op"]](op)
@@ -944,7 +986,7 @@ class RegistryWorld(World):
               "weak_collected", "weak_collected_unknown", "duplicate_refused", "reserved_refused", "forced", "class_registered",
               "generated_id", "registered_listing", "serpent", "json", "msgpack", "multiplex", "thread",
               "shape_len0", "shape_bool0", "shape_state", "par_make", "par_overlap", "par_gc_weak", "strong_survives_gc",
-              "shape_inst", "shape_noweak", "shape_eq", "register_failed_frozen", "register_failed_noweak", "tracked_weak_collected"]
+              "shape_inst", "shape_noweak", "shape_eq", "registered_in_two_daemons", "second_daemon_closed", "return_proxy_two_daemons", "register_failed_frozen", "register_failed_noweak", "tracked_weak_collected"]
     RULE = ("plan = (server type, generator tier core|extended, 3-10 steps (thorough: -16) of register / unregister / uriFor / "
             "proxyFor / call / return-object / gc / registered over 3 pool objects + 2 classes + ids id0..id2, generated, "
             "colliding ('the current or last id of object k'), reserved; force only in the extended tier; weak for objects; "
@@ -1119,6 +1161,20 @@ class RegistryWorld(World):
         seq.append({"op": "call", "id": idb, "ser": rng.choice(SERIALIZERS)})
         return seq
 
+    def _focus_weak_successor(self, rng):
+        """directed tail: a weakly registered object is returned (and called), dropped and collected; its successor in the slot
+        is registered under another id and returned: it must arrive as a proxy for ITS id, reaching IT"""
+        a = rng.randrange(3)
+        ser = rng.choice(RET_SERS)
+        seq = [{"op": "reg", "x": ["o", a], "id": rng.choice(["id0", None]), "force": False, "weak": True},
+               {"op": "ret", "k": a, "ser": ser}]
+        if rng.random() < 0.4:
+            seq.append({"op": "ret", "k": a, "ser": rng.choice(RET_SERS)})
+        seq.append({"op": "gc", "k": a})
+        seq.append({"op": "reg", "x": ["o", a], "id": rng.choice(["id1", None]), "force": False, "weak": rng.random() < 0.5})
+        seq.append({"op": "ret", "k": a, "ser": ser})
+        return seq
+
     def _focus_force_same_id(self, rng):
         """directed tail: an object is registered again under its OWN id with force and the weak flag flipped, then the
         application drops it: weak -> strong must survive and stay known, strong -> weak must go"""
@@ -1209,6 +1265,37 @@ class RegistryWorld(World):
                 shapes[a] = "inst"
                 gtier = plan["gtier"] = "extended"
                 plan["focus"] = "class-then-instance"
+        if "focus" not in plan and rng.random() < 0.04:
+            del ops[:]
+            for _ in range(rng.choice([0, 0, 1])):
+                ops.append(self._op(rng, "core"))
+            tail = self._focus_weak_successor(rng)
+            a = tail[0]["x"][1]
+            ops[:] = [o for o in ops if o.get("x") != ["o", a] and o.get("k") != a and o.get("id") != "@o%d" % a]
+            ops.extend(tail)
+            if shapes[a] in ("frozen", "noweak"):
+                shapes[a] = "plain"
+            plan["focus"] = "weak-successor"
+        if "focus" not in plan and rng.random() < 0.04:
+            # focus shape "two daemons": an object registered here is registered under the same id in a second daemon of the
+            # process as well; that daemon is closed again; this daemon's registry and its answers must be what they were
+            a = rng.randrange(3)
+            del ops[:]
+            for _ in range(rng.choice([0, 0, 1, 2])):
+                o = self._op(rng, "core")
+                if o.get("x") != ["o", a] and o.get("k") != a and o.get("id") != "@o%d" % a:
+                    ops.append(o)
+            ops.append({"op": "reg", "x": ["o", a], "id": rng.choice([None, "id0", "idA"]), "force": False, "weak": rng.random() < 0.25})
+            ops.append({"op": "reg2", "k": a})
+            if rng.random() < 0.5:
+                ops.append({"op": "ret", "k": a, "ser": rng.choice(RET_SERS)})
+            if rng.random() < 0.8:
+                ops.append({"op": "close2"})
+            ops.append({"op": rng.choice(["ret", "uri", "proxy"]), "k": a, "x": ["o", a], "ser": rng.choice(RET_SERS)})
+            if shapes[a] in ("frozen", "noweak"):
+                shapes[a] = "plain"
+            plan["focus"] = "two-daemons"
+            plan["sweep"] = True
         plan["shapes"] = shapes
         if "focus" not in plan and rng.random() < 0.11:
             # concurrent factory calls: thread server, line pre-emption inside the registration code
